@@ -19,9 +19,10 @@ Vocabulary (defined in the model / lemma files, all computable):
                      `dofs × size`).
 
 Findings (each: `…_partial` = what the code does, `…_counterexample` = kernel-checked witness; listed in
-`known_findings.json`): `kkk` is the wrong block; a force-controlled torque is applied as one point force; the
-load-asymmetry amplitude never reaches the right-hand side; harmonics of `Nxxtop` are dropped unless the model NAME
-contains `bc2`/`bc4`.
+`known_findings.json`): a force-controlled torque is applied as one point force; harmonics of `Nxxtop` are dropped
+unless the model NAME contains `bc2`/`bc4`; a reduced matrix with null rows that carry load.  Two former findings were
+repaired in /repo (`fix:` commits 0bf93e4 `kkk` block, 7b8ae8e load-asymmetry term) and their theorems are now stated
+at full strength (`blocks_entrywise`, `static_rhs`), the former witnesses kept as positive instances.
 -/
 import CompmechVerif.Model.ConeCylGlueLemmas
 
@@ -96,29 +97,30 @@ theorem kuu_entry (num0 n : Nat) (E : List Nat) (h : E.Pairwise (· < ·)) (k : 
 
 /-- What the other three blocks are.  `kuk` = rows of the free amplitudes × the first `num0` columns (so its columns
 at prescribed amplitudes are `K[free, prescribed]`, which is how `calc_fext` uses them); `kku` likewise transposed;
-but `kkk` is the block of the leading amplitudes that are NOT prescribed — see `kkk_not_prescribed_block_counterexample`. -/
-theorem blocks_entrywise_partial (num0 n : Nat) (E : List Nat) (h : E.Pairwise (· < ·)) (k : Coo K) (i j : Nat) :
+`kkk` = the prescribed × prescribed block `K[E, E]` — together with `kuu_entry` the documented partition
+`k = |kkk kku; kuk kuu|` (prescribed amplitudes inside the first `num0`). -/
+theorem blocks_entrywise (num0 n : Nat) (E : List Nat) (h : E.Pairwise (· < ·)) (hnum : ∀ e ∈ E, e < num0)
+    (k : Coo K) (i j : Nat) :
     let b := excludeDofsMatrix num0 E n k
     b.kuk.toFun i j = (if j < num0 then k.toFun (up E i) j else 0) ∧
     b.kku.toFun i j = (if i < num0 then k.toFun i (up E j) else 0) ∧
-    b.kkk.toFun i j = (if up E i < num0 ∧ up E j < num0 then k.toFun (up E i) (up E j) else 0) ∧
+    b.kkk.toFun i j = (if h : i < E.length ∧ j < E.length then k.toFun (E[i]'h.1) (E[j]'h.2) else 0) ∧
     b.shapeUU = (n - E.length, n - E.length) ∧ b.shapeUK = (n - E.length, num0) ∧
-    b.shapeKU = (num0, n - E.length) ∧ b.shapeKK = (num0 - E.length, num0 - E.length) :=
-  ⟨kuk_entry_aux num0 n E h k i j, kku_entry_aux num0 n E h k i j, kkk_entry_aux num0 n E h k i j,
+    b.shapeKU = (num0, n - E.length) ∧ b.shapeKK = (E.length, E.length) :=
+  ⟨kuk_entry_aux num0 n E h k i j, kku_entry_aux num0 n E h k i j, kkk_entry_aux num0 n E h hnum k i j,
     (shapes_aux num0 n E k).1, (shapes_aux num0 n E k).2.1, (shapes_aux num0 n E k).2.2.1, (shapes_aux num0 n E k).2.2.2⟩
 
 end partition
 
-/-- Refutation of "the four blocks are the stated partition `k = |kkk kku; kuk kuu|`": for `diag(1,2,3)` with the
-default prescribed set `{1, 2}` the code returns the 1×1 block `[[K₀₀]] = [[1]]`, not the 2×2 block
-`K[{1,2},{1,2}]` (whose first entry is `K₁₁ = 2`). -/
-theorem kkk_not_prescribed_block_counterexample :
+/-- The former witness of the `kkk` defect (known finding until `fix:` 0bf93e4): for `diag(1,2,3)` with the default
+prescribed set `{1, 2}` the block is 2×2 with `kkk₀₀ = K₁₁ = 2`, `kkk₁₁ = K₂₂ = 3` (the code used to return `[[K₀₀]]`). -/
+theorem kkk_prescribed_block_instance :
     let k : Coo ℚ := [(0, 0, 1), (1, 1, 2), (2, 2, 3)]
     let E : List Nat := [1, 2]
-    E.Pairwise (· < ·) ∧ (∀ e ∈ E, e < 3) ∧
-      (excludeDofsMatrix 3 E 3 k).shapeKK = (1, 1) ∧
-      (excludeDofsMatrix 3 E 3 k).kkk.toFun 0 0 = k.toFun 0 0 ∧ k.toFun 0 0 = 1 ∧ k.toFun 1 1 = 2 :=
-  kkk_counterexample_aux
+    (excludeDofsMatrix 3 E 3 k).shapeKK = (2, 2) ∧
+      (excludeDofsMatrix 3 E 3 k).kkk.toFun 0 0 = 2 ∧ (excludeDofsMatrix 3 E 3 k).kkk.toFun 1 1 = 3 ∧
+      (excludeDofsMatrix 3 E 3 k).kkk.toFun 0 1 = 0 :=
+  kkk_instance_aux
 
 section fullc
 variable {K : Type} [Field K]
@@ -174,7 +176,7 @@ variable {K : Type} [Field K] [DecidableEq K]
 /-- Entry-wise closed form of `calc_fext(inc)`, and the scaling by the load factor: every entry is
 `constPart + inc·incPart`, where `constPart` collects the constant point forces, `P` and `T`, and `incPart` the
 incremented point forces, the edge load `Nxxtop` (hence `Fc`), `P_inc`, `T_inc`, and the prescribed end shortening /
-end rotation terms `−uTM·K_uk[:,0]`, `−thetaTrad·K_uk[:,1]`; neither depends on `inc`. -/
+end rotation / load-asymmetry terms `−uTM·K_uk[:,0]`, `−thetaTrad·K_uk[:,1]`, `−LA·K_uk[:,2]`; neither depends on `inc`. -/
 theorem fext_constant_plus_inc_times_incremental (a : FextIn K) (hw : WF a) (f : List K) (h : calcFext a = .ok f) :
     f.length = a.size - a.E.length ∧
       ∀ i, i < a.size - a.E.length → f.getD i 0 = constPart a i + a.inc * incPart a i :=
@@ -188,7 +190,7 @@ theorem fext_affine_in_load_factor (a : FextIn K) (hw : WF a) (t : K) (f0 f1 ft 
   fext_affine_aux a hw t f0 f1 ft e0 e1 et i hi
 
 /-- `fext` is additive in the loads (same shell, model, prescribed set, load factor): superposing two load sets
-(point forces collected, `Nxxtop`, `P`, `P_inc`, `T`, `T_inc`, `uTM`, `thetaTrad` added) adds the vectors. -/
+(point forces collected, `Nxxtop`, `P`, `P_inc`, `T`, `T_inc`, `uTM`, `thetaTrad`, `LA` added) adds the vectors. -/
 theorem fext_additive_in_loads (fr : FextIn K) (x y : Loads K) (hx : WF (withLoads fr x)) (hy : WF (withLoads fr y))
     (fx fy fxy : List K) (ex : calcFext (withLoads fr x) = .ok fx) (ey : calcFext (withLoads fr y) = .ok fy)
     (exy : calcFext (withLoads fr (x.add y)) = .ok fxy) (i : Nat) (hi : i < fr.size - fr.E.length) :
@@ -228,7 +230,8 @@ theorem fext_torque_partial (a : FextIn K) (hr : a.r2 ≠ 0) (hpdT : a.pdT = fal
     constPart a i + a.inc * incPart a i =
       (ptShape a.forces (up a.E i) + a.P * prShape a (up a.E i))
       + a.inc * (ptShape a.forcesInc (up a.E i) + axShape a (up a.E i) + a.Pinc * prShape a (up a.E i)
-          - (if 0 ∈ a.E then a.uTM * a.k0uk.toFun i 0 else 0))
+          - (if 0 ∈ a.E then a.uTM * a.k0uk.toFun i 0 else 0)
+          - (if 2 ∈ a.E then a.LA * a.k0uk.toFun i 2 else 0))
       + (a.T + a.inc * a.Tinc) * (if up a.E i = 1 then 1 else 0) :=
   fext_torque_partial_aux a hr hpdT hg i
 
@@ -262,12 +265,9 @@ theorem fext_axial_harmonics_counterexample :
 section static
 variable {K : Type} [Field K] [DecidableEq K]
 
-/-- What the solution of the system handed to `solve` satisfies (what the code does): `static` passes
-`(k0uu, calc_fext(inc = 1))`; if the solver is exact, the rows of the full system that belong to the free amplitudes read
-`(K c)_{up E i} = fext_i + Σ_{prescribed e} K_uk[i, e]·ck_e`.  `fext` already contains `−uTM·K_uk[:,0]` and
-`−thetaTrad·K_uk[:,1]` (`fext_constant_plus_inc_times_incremental`), so the load-asymmetry term `K_uk[:,2]·LA` is left
-over — `static_rhs_counterexample`. -/
-theorem static_rhs_partial (num0 n : Nat) (E : List Nat) (ck : List K) (k : Coo K) (cu f : List K)
+/-- What the solution of ANY system handed to `solve` satisfies: if the solver is exact for `(k0uu, f)`, the rows of the
+full system that belong to the free amplitudes read `(K c)_{up E i} = f_i + Σ_{prescribed e} K_uk[i, e]·ck_e`. -/
+theorem static_rows (num0 n : Nat) (E : List Nat) (ck : List K) (k : Coo K) (cu f : List K)
     (hasc : E.Pairwise (· < ·)) (hb : ∀ e ∈ E, e < n) (hnum : ∀ e ∈ E, e < num0) (hck : ck.length = E.length)
     (hcu : cu.length + E.length = n) (hne : E ≠ [])
     (hsolve : ∀ i, i < cu.length →
@@ -276,6 +276,22 @@ theorem static_rhs_partial (num0 n : Nat) (E : List Nat) (ck : List K) (k : Coo 
       sumTo n (fun j => k.toFun (up E i) j * (calcFullC n E ck 1 cu).getD j 0) =
         f.getD i 0 + ((E.zip ck).map fun q => (excludeDofsMatrix num0 E n k).kuk.toFun i q.1 * q.2).sum :=
   static_rows_aux num0 n E ck k cu f hasc hb hnum hck hcu hne hsolve
+
+/-- The linear static solution satisfies the reduced system with ALL prescribed-displacement terms on the right-hand
+side: for the prescribed set and values `_rebuild` produces (`excludedDofs`: `uTM` iff `pdC`, `thetaTrad` iff `pdT`, `LA`
+always), `k0uk` the `kuk` block of `K`, and an exact solver for `(k0uu, calc_fext(inc = 1))`, every row of the FULL system
+`K c = f` that belongs to a free amplitude holds with `f` = the loads alone (`loadShape`: point forces, axial edge load,
+pressure, torque), `c = calc_full_c(cu)`. -/
+theorem static_rhs (num0 n : Nat) (pdC pdT : Bool) (k : Coo K) (cu f : List K) (a : FextIn K)
+    (E : List Nat) (ck : List K) (hex : excludedDofs pdC pdT true a.uTM a.thetaT a.LA = some (E, ck))
+    (haE : a.E = E) (hpdT : a.pdT = pdT) (hk : a.k0uk = (excludeDofsMatrix num0 E n k).kuk) (hn : a.size = n)
+    (hnum : 3 ≤ num0) (hw : WF a) (hcu : cu.length + E.length = n)
+    (hf : calcFext { a with inc := 1 } = .ok f)
+    (hsolve : ∀ i, i < cu.length →
+      sumTo cu.length (fun j => (excludeDofsMatrix num0 E n k).kuu.toFun i j * cu.getD j 0) = f.getD i 0) :
+    ∀ i, i < cu.length →
+      sumTo n (fun j => k.toFun (up E i) j * (calcFullC n E ck 1 cu).getD j 0) = loadShape a i :=
+  static_rhs_aux num0 n pdC pdT k cu f a E ck hex haE hpdT hk hn hnum hw hcu hf hsolve
 
 /-- `static` refuses a prescribed end shortening (also for the linear analysis) and models without the
 `'linear static'` flag; otherwise it hands `(k0uu, calc_fext(inc = 1))` to the solver and reports `([1], [x])`. -/
@@ -288,16 +304,16 @@ theorem static_passes (solve : Coo K → List K → List K) (pdC lin : Bool) (ku
 
 end static
 
-/-- Refutation of "the linear static solution satisfies `K_uu c_u = f_u` with ALL prescribed-displacement terms on the
-right-hand side": no loads, prescribed rotation 0, load-asymmetry amplitude `LA = 1`, a matrix that couples amplitude 2
-to the free amplitude 3 (`K₃₂ = 5`).  `static` hands the zero vector to the solver, the exact solution is zero, and the
-row of amplitude 3 of the full system reads `5 = 0`. -/
-theorem static_rhs_counterexample :
-    ∃ f, staticLinear (fun _ f => f.map fun _ => 0) false true (excludeDofsMatrix 3 [1, 2] 4 laMatrix).kuu laWitness
-        = .ok (((excludeDofsMatrix 3 [1, 2] 4 laMatrix).kuu, f), ([1], [f.map fun _ => 0])) ∧
-      f.length = 2 ∧ (∀ i, i < 2 → f.getD i 0 = 0) ∧
-      sumTo 4 (fun j => laMatrix.toFun (up [1, 2] 1) j * (calcFullC 4 [1, 2] [0, 1] 1 [0, 0]).getD j 0) = 5 :=
-  static_rhs_counterexample_aux
+/-- The former witness of the load-asymmetry defect (known finding until `fix:` 7b8ae8e), now a positive instance of
+`static_rhs`: no loads, prescribed rotation 0, `LA = 1`, a matrix that couples amplitude 2 to the free amplitude 3
+(`K₃₂ = 5`, `K_uu = I`).  `static` hands `[0, −5]` to the solver and the row of amplitude 3 of the full system holds
+(`5·1 + 1·(−5) = 0`; before the repair the right-hand side was `[0, 0]` and the row read `5 = 0`). -/
+theorem static_rhs_instance :
+    ∃ f, staticLinear (fun _ f => f) false true (excludeDofsMatrix 3 [1, 2] 4 laMatrix).kuu laWitness
+        = .ok (((excludeDofsMatrix 3 [1, 2] 4 laMatrix).kuu, f), ([1], [f])) ∧
+      f.length = 2 ∧ f.getD 0 0 = 0 ∧ f.getD 1 0 = -5 ∧
+      sumTo 4 (fun j => laMatrix.toFun (up [1, 2] 1) j * (calcFullC 4 [1, 2] [0, 1] 1 [0, -5]).getD j 0) = 0 :=
+  static_la_instance_aux
 
 /-- The solver hypothesis of `reduced_system` cannot always be met: the (only) free amplitude of
 `diag(2, 0, 1)` with amplitudes 0 and 2 prescribed has zero stiffness, so with a load `7` on it NO vector satisfies
@@ -342,6 +358,8 @@ end real
 /-! Non-vacuity: the hypotheses of the main theorems are met by concrete data. -/
 example : ([1, 2] : List Nat).Pairwise (· < ·) := by simp
 example : WF torqueWitness := torqueWitness_WF
+example : WF laWitness ∧ excludedDofs false true true laWitness.uTM laWitness.thetaT laWitness.LA = some ([1, 2], [0, 1]) :=
+  ⟨laWitness_WF, rfl⟩
 example : rebuildGeom (⟨none, some 250, some 510, none⟩ : GeomIn ℚ) (1 / 10) (99 / 100) =
     .ok ⟨250 + 510 / (99 / 100) * (1 / 10), 250, 510, 510 / (99 / 100)⟩ := by
   simp [rebuildGeom, geomH1, geomL2, geomH3, geomRadii_of_r2, truthy]
